@@ -405,8 +405,8 @@ class AccountingMonitor(Monitor):
                     if not b["complete"]:
                         exp.add(o.trade.id)
                         lg = [x.name for x in o.status_log]
-                        if o.complete and lg[-2:] == ["CANCELLING", "EXECUTION_COMPLETE"] and abs(b["cancelled"] - b["remaining"]) < 1e-9:
-                            race = True
+                        if o.complete and lg[-2:] == ["CANCELLING", "EXECUTION_COMPLETE"] and abs(b.get("last_cancel", b["cancelled"]) - b["remaining"]) < 1e-9:
+                            race = True  # F22: the last partial cancel took exactly what is left now
                 if set(ctx.live_trades) != exp:
                     site = "live-trades-differ-from-bets-live-at-the-exchange" + (":partial-cancel-race" if race else "")
                     self.violate(self.P, "C10.live", site, strategy=strategy.name, lookup=list(lookup), live_trades=len(ctx.live_trades), expected=len(exp), orders=[(o._vid, o.status.name if o.status else None, o.order_type.ORDER_TYPE.name) for o in orders])
